@@ -322,6 +322,46 @@ func kindClaimed(kinds []string, k string) bool {
 	return false
 }
 
+// coverKinds: obligation kinds that come from contract clauses and are
+// expected to be reachable. (A panic / bounds / nil obligation is often proved
+// exactly because no feasible path reaches it; a postcondition, a loop
+// invariant or an assertion at a call or send that no feasible path reaches
+// is proved by nothing.)
+var coverKinds = map[string]bool{"assert": true, "post": true, "inv-pres": true}
+
+// groupReachable asks whether the hypotheses of at least one path of the group are
+// satisfiable: "sat", "unsat" or "unknown".
+func groupReachable(g *group, timeoutS int) string {
+	var disj []*Term
+	for _, o := range g.obs {
+		disj = append(disj, And(append([]*Term(nil), o.Hyps...)...))
+	}
+	unknown := false
+	const chunk = 20
+	for i := 0; i < len(disj); i += chunk {
+		j := i + chunk
+		if j > len(disj) {
+			j = len(disj)
+		}
+		q := buildQuery([]*Term{Or(disj[i:j]...)}, nil)
+		if d := os.Getenv("GOVC_DUMP_COVER"); d != "" && strings.Contains(g.name, d) {
+			os.WriteFile(fmt.Sprintf("/tmp/govc-cover-%d.smt2", i), []byte(q), 0o644)
+		}
+		r := SolveVariants(queryVariants(q, []*Term{Or(disj[i:j]...)}, nil), timeoutS, false)
+		switch r.Status {
+		case "sat":
+			return "sat"
+		case "unsat":
+		default:
+			unknown = true
+		}
+	}
+	if unknown {
+		return "unknown"
+	}
+	return "unsat"
+}
+
 // discharge decides one obligation group.
 func discharge(g *group, timeoutS int, all bool) *ObligResult {
 	res := &ObligResult{Name: g.name, Kind: g.kind, Paths: len(g.obs)}
@@ -1217,6 +1257,32 @@ func checkProperty(id, tier string) int {
 	}
 
 	// lemmas
+	// vacuity: a discharged clause obligation that no feasible path reaches
+	{
+		var cwg sync.WaitGroup
+		csem := make(chan struct{}, 10)
+		var cmu sync.Mutex
+		for i, name := range order {
+			r := results[i]
+			if r == nil || r.Result != "discharged" || !coverKinds[r.Kind] || os.Getenv("GOVC_NO_COVER") != "" {
+				continue
+			}
+			cwg.Add(1)
+			go func(i int, g *group) {
+				defer cwg.Done()
+				csem <- struct{}{}
+				defer func() { <-csem }()
+				if groupReachable(g, 3) == "unsat" {
+					cmu.Lock()
+					results[i].Result = "undecided"
+					results[i].Backend = "reachability"
+					results[i].Note = strings.TrimSpace(results[i].Note + " VACUOUS: no feasible path reaches this obligation (contradictory assumptions, or a clause attached to dead code): it is proved by nothing")
+					cmu.Unlock()
+				}
+			}(i, groups[name])
+		}
+		cwg.Wait()
+	}
 	lemmaResults := runLemmas(P, prop, timeoutS, all)
 	results = append(results, extraResults...)
 	results = append(results, lemmaResults...)
